@@ -187,6 +187,50 @@ def _gen_shard(item):
     return part
 
 
+def _host_shard(item):
+    """well-formedness under another host interpreter: convert there, compile the text there"""
+    host, sources = item
+    from .. import interp
+    part = new_part()
+    pl = interp.Pool()
+    try:
+        if host not in pl.found:
+            part["discarded"]["host-%s-not-found" % host] += len(sources)
+            return part
+        w = pl.get(host)
+        for name, src in sources:
+            ok = w.call({"op": "compile", "text": src, "mode": "exec"})
+            if not ok.get("ok"):
+                part["discarded"]["source-not-valid-on-host-%s" % host] += 1
+                continue
+            for cfg in env.ALL_CFGS:
+                c = w.call({"op": "convert", "repo": env.REPO, "src": src, "cfg": list(cfg), "seed": 0})
+                if c.get("worker_error"):
+                    raise env.HarnessError("host worker %s: %s" % (host, c.get("err")))
+                part["evaluations"] += 1
+                if not c.get("ok"):
+                    part["classes"]["rejected-on-host:" + host] += 1
+                    continue
+                part["classes"]["returned-on-host:" + host] += 1
+                part["nontrivial"].add(key_hash(host, src, cfg))
+                text = c["text"]
+                d = []
+                if "\n" in text or "\r" in text:
+                    d = ["output contains a line break"]
+                else:
+                    k = w.call({"op": "compile", "text": text, "mode": "eval"})
+                    if not k.get("ok") and not str(k.get("err", "")).startswith(("RecursionError", "MemoryError")):
+                        d = ["output does not compile in eval mode on host %s: %s ... %s" % (host, k.get("err"), text[:160])]
+                if d and len(part["violations"]) < 3:
+                    part["violations"].append({
+                        "payload": {"kind": "wellformed-host", "src": src, "cfg": list(cfg), "host": host},
+                        "diffs": d, "what": "accepted input turned into text that is not an expression on host %s (%s, %s)" % (
+                            host, name, env.cfg_name(cfg))})
+    finally:
+        pl.close()
+    return part
+
+
 def _pool_shard(item):
     name, src = item
     part = new_part()
@@ -214,6 +258,13 @@ def run(report):
         items += [(_corpus_shard, (files[i::n], off, 1 if quick else 8, switches)) for i in range(n)]
     else:
         report.notes.append("standard library sources not found; corpus family skipped")
+    from .. import hosts as _hosts
+    others = _hosts.available_other_hosts()
+    hsrc = sorted(pool.all_programs().items()) + sorted(pool.VERSION_SENSITIVE.items())
+    for h in others:
+        for k in range(2):
+            items.append((_host_shard, (h, hsrc[k::2])))
+    report.extra["other_hosts"] = others
     per = 200 if quick else 3000
     items += [(_gen_shard, (env.sub_seed(report.seed, "C02", i), per, True, switches)) for i in range(env.NPROC)]
     for part in env.pmap(_call, items):
@@ -230,6 +281,9 @@ def _call(item):
 
 
 def replay(payload):
+    if payload.get("kind") == "wellformed-host":
+        part = _host_shard((payload["host"], [("replay", payload["src"])]))
+        return [d for v in part["violations"] if v["payload"]["cfg"] == payload["cfg"] for d in v["diffs"]]
     if payload.get("kind") != "wellformed":
         raise env.HarnessError("unknown replay payload kind %r" % payload.get("kind"))
     try:
